@@ -1502,6 +1502,75 @@ fn sexa_s() -> impl Strategy<Value = Sexa> + Clone + use<> {
             Sexa { d, m, s, frac }
         })
 }
+// ---------------- byte-driven construction of expressions (libFuzzer target) ---------------------
+fn digits_from_bytes(b: &mut engine::Bytes, max: usize) -> String {
+    let n = 1 + b.below(max);
+    (0..n).map(|_| (b'0' + b.below(10) as u8) as char).collect()
+}
+fn group_from_bytes(b: &mut engine::Bytes) -> String {
+    match b.below(8) {
+        0 => {
+            let k = 2 + b.below(3);
+            (0..k).map(|_| digits_from_bytes(b, 4)).collect::<Vec<_>>().join("_")
+        }
+        1 => "0".to_string(),
+        _ => digits_from_bytes(b, 12),
+    }
+}
+fn ws_from_bytes(b: &mut engine::Bytes) -> Ws {
+    match b.below(16) {
+        0..=8 => 0,
+        9..=12 => 1,
+        x => (x - 11) as u8, // 2..=4
+    }
+}
+fn prim_from_bytes(b: &mut engine::Bytes, depth: u32) -> Prim {
+    let k = b.below(if depth == 0 { 14 } else { 20 });
+    match k {
+        0..=3 => Prim::Num(parse_num(b.pick(&NUM_CORPUS))),
+        4..=7 => {
+            let exp = if b.below(3) == 0 { Some((b.bool(), b.below(3) as u8, digits_from_bytes(b, 2))) } else { None };
+            let (a, c) = (group_from_bytes(b), group_from_bytes(b));
+            Prim::Num(match b.below(5) {
+                0 | 1 => Num { int: a, dot: false, frac: String::new(), exp },
+                2 => Num { int: a, dot: true, frac: c, exp },
+                3 => Num { int: a, dot: true, frac: String::new(), exp },
+                _ => Num { int: String::new(), dot: true, frac: c, exp },
+            })
+        }
+        8..=10 => Prim::Const(b.pick(&[Konst::Pi, Konst::Pi, Konst::Tau, Konst::Tau, Konst::Inf, Konst::Nan, Konst::DotInf, Konst::DotNan]), if b.bool() { 0 } else { b.u8() }),
+        11..=13 => {
+            let two = |b: &mut engine::Bytes| if b.bool() { b.below(60).to_string() } else { format!("{:02}", b.below(60)) };
+            let d = if b.below(4) == 0 { digits_from_bytes(b, 15) } else { b.below(400).to_string() };
+            let m = two(b);
+            let s = if b.below(5) < 3 { Some(two(b)) } else { None };
+            let frac = if s.is_some() && b.bool() { Some(digits_from_bytes(b, 6)) } else { None };
+            Prim::Sexa(Sexa { d, m, s, frac })
+        }
+        14..=16 => Prim::Paren(Box::new(expr_from_bytes(b, depth - 1)), ws_from_bytes(b)),
+        _ => Prim::Func(b.bool(), if b.below(9) == 0 { 1 } else { 0 }, Box::new(expr_from_bytes(b, depth - 1)), ws_from_bytes(b)),
+    }
+}
+fn unary_from_bytes(b: &mut engine::Bytes, depth: u32) -> Unary {
+    let lead = ws_from_bytes(b);
+    let signs = match b.below(17) {
+        0..=9 => vec![],
+        10..=13 => vec![(b.bool(), if b.below(7) == 0 { 1 } else { 0 })],
+        _ => (0..2 + b.below(3)).map(|_| (b.bool(), 0u8)).collect(),
+    };
+    Unary { lead, signs, prim: prim_from_bytes(b, depth) }
+}
+fn term_from_bytes(b: &mut engine::Bytes, depth: u32) -> Term {
+    let first = unary_from_bytes(b, depth);
+    let n = b.below(3);
+    Term { first, rest: (0..n).map(|_| (ws_from_bytes(b), b.bool(), unary_from_bytes(b, depth))).collect() }
+}
+fn expr_from_bytes(b: &mut engine::Bytes, depth: u32) -> Expr {
+    let first = term_from_bytes(b, depth);
+    let n = if b.is_empty() { 0 } else { b.below(3) };
+    Expr { first, rest: (0..n).map(|_| (ws_from_bytes(b), b.bool(), term_from_bytes(b, depth))).collect() }
+}
+
 fn leaf_prim(sexa_w: u32) -> BoxedStrategy<Prim> {
     prop_oneof![
         8 => num_s().prop_map(Prim::Num),
@@ -1837,14 +1906,27 @@ impl Property for C19 {
     fn selfcheck() -> Result<(), String> {
         selfcheck()
     }
-    /// libFuzzer input: tag, position, target, then up to 16 tokens of the soup alphabet (a byte
-    /// >= 0xC0 is taken as a raw ASCII character instead): totality, the option-off rule and the
-    /// tag / width relations are the oracle for such text
+    /// libFuzzer input: tag, position, target, then either an expression AST (numbers, constants,
+    /// sexagesimal literals, parentheses, unit functions, signs, blanks; depth <= 3) that is
+    /// rendered and compared with the reference evaluator, or up to 16 tokens of the soup alphabet
+    /// (a byte >= 0xC0 is taken as a raw ASCII character instead), for which totality, the
+    /// option-off rule and the tag / width relations are the oracle
     fn fuzz_decode(data: &[u8]) -> Option<(&'static str, Case, bool)> {
         let mut b = engine::Bytes::new(data);
         let tag = b.pick(&[Tag::None, Tag::None, Tag::None, Tag::Degrees, Tag::Radians, Tag::Float, Tag::Custom]);
         let pos = b.pick(&[Pos::Root, Pos::Root, Pos::Root, Pos::Field, Pos::Field, Pos::Field, Pos::SeqItem, Pos::OptField]);
         let target = b.pick(&[Target::F64, Target::F32]);
+        if b.below(3) != 0 {
+            // two inputs out of three: an expression AST (compared with the reference evaluator)
+            let style = b.pick(&[Style::Plain, Style::Plain, Style::Double, Style::Double, Style::Single, Style::Literal]);
+            let (m, nest, sb) = (b.below(3) as u8, b.below(8) == 0, b.below(10) == 0);
+            let trail = if b.below(5) == 0 { ws_from_bytes(&mut b) } else { 0 };
+            let mut e = expr_from_bytes(&mut b, 3);
+            tidy(&mut e, m, nest, sb, false);
+            let c = mk(Body::Expr(e, trail), tag, style, pos, target);
+            let nt = nontrivial(&c);
+            return Some(("fuzz-expr", c, nt));
+        }
         let mut s = String::new();
         for x in b.take(16) {
             if *x >= 0xC0 {
